@@ -138,6 +138,10 @@ func c07Case(c *core.Case) {
 			c07DeepDynCase(c)
 			return
 		}
+		if c.Index%25 == 14 {
+			c07TryCase(c)
+			return
+		}
 		c07BodyCase(c)
 		return
 	}
@@ -599,4 +603,58 @@ func c07BodyCase(c *core.Case) {
 	if roots := rootsOf(p.vars()); len(roots) >= 2 {
 		c.NonTrivial(src)
 	}
+}
+
+// ---------------------------------------------------------------- unevaluated arguments
+
+// c07TryPrograms call try/can (ext/tryfunc: their arguments are handed over as
+// expressions, with the scope they were written in) inside every binder, with
+// arguments that use the bound names; the scope holds globals of those names.
+var c07TryPrograms = []string{
+	`[for v in COLL : try(v.name, "none")]`,
+	`[for v in COLL : can(v.name)]`,
+	`{for k, v in COLL : k => try(v[0], v.id, k)...}`,
+	`[for i, x in COLL : try(x.id + i, "${i}")]`,
+	`"%{ for item in COLL }${try(item.id, item, "?")};%{ endfor }"`,
+	`"%{ for k, each in COLL }${can(each.name) ? k : "-"}%{ endfor }"`,
+	`[for x in COLL : [for y in [x] : try(y.name, x.id, "in")]]`,
+	`[for v in COLL : try(nosuch(v), v)]`,
+	`try(COLL[0].name, COLL.name, "outer")`,
+	`can(COLL[*].id)`,
+	`[for v in COLL : v if can(v.id)]`,
+	`{for k, v in COLL : try(v.name, "k${k}") => k...}`,
+	`COLL[*].id == try([for v in COLL : v.id], null)`,
+	`[for n in COLL : try(n.sub.name, n.name, s)]`,
+	`[for a in COLL : can(a.tags[0]) ? a.tags[0] : t]`,
+}
+
+func c07TryCase(c *core.Case) {
+	r := c.Rng
+	sc := gen.NewScope(r, gen.ValOpts{StrLevel: 1})
+	sc.Set("deep", gen.Value(r, cty.List(cty.Object(map[string]cty.Type{"id": cty.Number, "tags": cty.List(cty.String), "sub": cty.Object(map[string]cty.Type{"name": cty.String})})), gen.ValOpts{StrLevel: 1}))
+	sc.Set("objs", cty.TupleVal([]cty.Value{cty.ObjectVal(map[string]cty.Value{"name": cty.StringVal("a"), "id": cty.NumberIntVal(1)}), cty.ObjectVal(map[string]cty.Value{"id": cty.NumberIntVal(2)}), cty.StringVal("plain")}))
+	for _, n := range []string{"i", "k", "v", "x", "y", "each", "item", "n", "a"} {
+		if gen.Chance(r, 0.6) {
+			sc.Set(n, gen.Pick(r, []cty.Value{cty.ObjectVal(map[string]cty.Value{"name": cty.StringVal("GLOBAL"), "id": cty.NumberIntVal(99), "sub": cty.ObjectVal(map[string]cty.Value{"name": cty.StringVal("GLOBAL-SUB")}), "tags": cty.ListVal([]cty.Value{cty.StringVal("GLOBAL-TAG")})}), cty.StringVal("global"), cty.ListVal([]cty.Value{cty.StringVal("g0")})}))
+		}
+	}
+	src := strings.ReplaceAll(gen.Pick(r, c07TryPrograms), "COLL", gen.Pick(r, []string{"deep", "objs", "lst", "mp", "tup", "obj", "st"}))
+	he, d := hclsyntax.ParseExpression([]byte(src), "p.hcl", hcl.InitialPos)
+	if d.HasErrors() {
+		panic("C07 directed program does not parse: " + src + ": " + d.Error())
+	}
+	p := &c07Prog{src: src, kind: "native", vars: he.Variables, eval: he.Value}
+	c.SetInput(src + "\nSCOPE: " + scopeStr(sc))
+	c.Count("route:unevaluated-argument-programs")
+	full := map[string]cty.Value{}
+	for k, v := range sc.Vars {
+		full[k] = v
+	}
+	rule, msg := c07Judge(c, p, full, func(name string, v cty.Value) cty.Value { return gen.AnyValue(r, 1, gen.ValOpts{StrLevel: 1}) })
+	if rule != "" {
+		c.Violation(rule+"/unevaluated-argument/"+strings.SplitN(src, "(", 2)[0], fmt.Sprintf("program %s\n%s", src, msg), nil)
+		return
+	}
+	c.Count("three-scope-relation-held")
+	c.NonTrivial(src + scopeStr(sc))
 }
